@@ -303,8 +303,12 @@ func (l *lexer) backup() {
 
 // peek returns but does not consume the next rune in the input.
 func (l *lexer) peek() rune {
+	// Keep the width of the last consumed rune so that a backup after a peek
+	// still undoes that rune and not the one that was only looked at.
+	w := l.width
 	r := l.next()
 	l.backup()
+	l.width = w
 	return r
 }
 
